@@ -43,4 +43,44 @@ def rlplugins(prop, tier, seed, problems, known, known_hits, notes):
             os.environ["SFV_PLUGIN_DIR"] = old
 
 
-HOOKS = {"rlplugins": rlplugins}
+def _miri(part, prop, tier, seed, problems, notes):
+    """Thorough tier: the harness's in-process `miri` subcommand under Miri (nightly). Undefined behaviour on the
+    paths it exercises (all zoo types: encode, decode, truncated and hostile-length inputs; every ABI operation)
+    is what value-level comparison cannot see.  Supports the check; it is not part of any proof."""
+    if tier != "thorough":
+        return
+    env = dict(os.environ, MIRIFLAGS="-Zmiri-disable-isolation -Zmiri-ignore-leaks")
+    cmd = ["cargo", "+nightly", "miri", "run", "--offline", "--target-dir", os.path.join(HARNESS, "target", "miri"),
+           "--bin", "sfv-harness", "--", "miri", "--filter", part, "--seed", str(seed)]
+    try:
+        p = subprocess.run(cmd, cwd=HARNESS, env=env, stdout=subprocess.PIPE, stderr=subprocess.STDOUT, text=True, timeout=3600)
+    except subprocess.TimeoutExpired:
+        notes.append("Miri run (%s) did not finish within an hour; not counted" % part)
+        return
+    out = p.stdout
+    if "error: Undefined Behavior" in out or "error: unsupported operation" in out and "miri-" not in out.split("#stat")[-1]:
+        i = out.find("error: Undefined Behavior")
+        i = i if i >= 0 else out.find("error: unsupported operation")
+        msg = " ".join(out[i:i + 1500].split())
+        problems.append(("impl-violates-property", "%s miri-undefined-behaviour part=%s %s" % (prop, part, msg[:700]),
+                         {"suite": "miri/" + part, "cmd": " ".join(cmd), "miri_output": out[i:i + 6000]}))
+        return
+    stat = [l for l in out.split("\n") if l.startswith("#stat miri-")]
+    if p.returncode != 0 or not stat:
+        notes.append("Miri run (%s) not usable (toolchain missing or build failed, rc=%d): %s" % (part, p.returncode, " ".join(out[-300:].split())))
+        return
+    for l in out.split("\n"):
+        if l.startswith("!"):
+            problems.append(("impl-violates-property", l[1:][:600], {"suite": "miri/" + part, "observation": l}))
+    notes.append("Miri (nightly, leaks ignored) ran `sfv-harness miri --filter %s` without reporting undefined behaviour: %s" % (part, "; ".join(stat)))
+
+
+def miri_codec(prop, tier, seed, problems, known, known_hits, notes):
+    _miri("codec", prop, tier, seed, problems, notes)
+
+
+def miri_abi(prop, tier, seed, problems, known, known_hits, notes):
+    _miri("abi", prop, tier, seed, problems, notes)
+
+
+HOOKS = {"rlplugins": rlplugins, "miri_codec": miri_codec, "miri_abi": miri_abi}
